@@ -8,7 +8,9 @@
     process dies, the database file holds the effects of exactly a prefix of
     the statements/transactions issued so far.  Under it, the durable state at
     crash point [k] of workload [h] is [crash_at d h k]; restart = the next
-    GetUserDB ([COpen]: initUserDB is skipped when the file exists).
+    GetUserDB ([COpen]: initUserDB runs at every open, all its statements are
+    idempotent, the default mailboxes are one transaction on an empty table —
+    the code after fixes/store-init-idempotent.patch).
     All theorems quantify over ALL workloads [h] (lists of [cop]: first
     contact, deliveries, APPEND with any message shape incl. out-of-line parts,
     UID COPY, COPY, UID STORE incl. the Junk move, EXPUNGE, CLOSE, CREATE,
@@ -16,7 +18,7 @@
     points [k]. *)
 From Coq Require Import String Ascii List Bool ZArith Arith.
 From Raven Require Import Base.GoStr Model.Store Model.Ops Model.Micro Spec.UidSpec Spec.Crash
-  Proof.StoreInv Proof.MicroRefine Proof.MicroBase Proof.MicroWF Proof.MicroCrash Proof.MicroUid.
+  Proof.StoreInv Proof.MicroRefine Proof.MicroBase Proof.MicroWF Proof.MicroInbox Proof.MicroCrash Proof.MicroUid.
 Import ListNotations.
 Local Open Scope Z_scope.
 
@@ -97,30 +99,32 @@ Print Assumptions c07_uid_rules_inside_expunge_partial.
 
 (** ---- (a)+(e) usable stores, logins and deliveries succeed again ------------------ *)
 
-(** outside the two finding classes every crash state is usable ... *)
-Theorem c07_usable_outside_classes : forall h k,
-  classify h k = None -> usable (crash_at absent h k) = true.
-Proof. exact outside_classes_usable. Qed.
-Print Assumptions c07_usable_outside_classes.
+(** For EVERY workload and EVERY crash point — including every point inside
+    store creation — the next GetUserDB (login, or the head of a delivery)
+    answers OK and leaves a store with its file, all tables and an INBOX.
+    (Before fixes/store-init-idempotent.patch this failed for the crash
+    points inside store creation: Example [c07_old_store_creation_was_torn].) *)
+Theorem c07_every_crash_state_reopens : forall h k t1 t2 t3 t4 t5,
+  snd (big (crash_at absent h k) (COpen t1 t2 t3 t4 t5)) = ROk /\
+  usable (fst (big (crash_at absent h k) (COpen t1 t2 t3 t4 t5))) = true.
+Proof. exact every_crash_state_reopens. Qed.
+Print Assumptions c07_every_crash_state_reopens.
 
-(** ... a usable state is reopened by the next login (OK, all tables, INBOX) ... *)
-Theorem c07_usable_reopens : forall c t1 t2 t3 t4 t5,
-  usable c = true ->
-  snd (big c (COpen t1 t2 t3 t4 t5)) = ROk /\
-  ready (fst (big c (COpen t1 t2 t3 t4 t5))) = true /\
-  has_inbox (fst (big c (COpen t1 t2 t3 t4 t5))) = true /\
-  d_file (fst (big c (COpen t1 t2 t3 t4 t5))) = true.
-Proof. exact usable_reopens. Qed.
-Print Assumptions c07_usable_reopens.
+(** the mailbox table at every crash point: row ids unique; INBOX exists unless
+    the table is still empty (nothing deletes or renames the INBOX row); no
+    rows without a file *)
+Theorem c07_inbox_survives_every_crash : forall h k, MB (crash_at absent h k).
+Proof. exact (fun h k => crash_MB h k absent BI_absent). Qed.
+Print Assumptions c07_inbox_survives_every_crash.
 
-(** ... and a delivery into an existing mailbox of a reopened store is accepted,
-    adds one link and leaves every listed message complete, provided the
-    mailbox's uid_next is not stale ([add_ok]; C03's invariant gives it:
+(** a delivery into an existing mailbox of a ready store is accepted, adds one
+    link and leaves every listed message complete, provided the mailbox's
+    uid_next is not stale ([add_ok]; C03's invariant gives it:
     [c07_uid_rules_give_add_ok]) *)
-Theorem c07_recovered_delivery_accepted : forall d f t sh t1 t2 t3 t4 t5 m,
-  WF d -> d_file d = true -> ready d = true ->
+Theorem c07_recovered_delivery_accepted : forall d f t sh m,
+  WF d -> ready d = true ->
   find_name (d_st d) f = Some m -> add_ok (d_st d) (mb_id m) = true ->
-  let dr := big d (CDeliver f t sh t1 t2 t3 t4 t5) in
+  let dr := big d (CDeliver f t sh) in
   snd dr = ROk /\ links_complete (fst dr) /\
   length (links (d_st (fst dr))) = S (length (links (d_st d))).
 Proof. exact ready_deliver_ok. Qed.
@@ -137,50 +141,32 @@ Theorem c07_clean_stop_is_full_prefix : forall d h,
 Proof. exact crash_full. Qed.
 Print Assumptions c07_clean_stop_is_full_prefix.
 
+(** reopening a complete store (the 26 idempotent schema statements, no
+    default-mailbox transaction) changes nothing *)
 Theorem c07_reopen_changes_nothing : forall d t1 t2 t3 t4 t5,
-  d_file d = true -> big d (COpen t1 t2 t3 t4 t5) = (d, ROk) /\ micro d (COpen t1 t2 t3 t4 t5) = [].
+  d_file d = true -> d_schema d = NSCHEMA -> mboxes (d_st d) <> [] ->
+  big d (COpen t1 t2 t3 t4 t5) = (d, ROk) /\ run_steps d (micro d (COpen t1 t2 t3 t4 t5)) = d.
 Proof. exact reopen_id. Qed.
 Print Assumptions c07_reopen_changes_nothing.
 
-(** ---- refuted: store creation is not crash-safe ------------------------------------- *)
+(** ---- regression: the old store creation (before the fix) ---------------------------- *)
 
-(** a store whose file exists without the essential tables is never repaired:
-    GetUserDB skips initUserDB because the file exists *)
-Theorem c07_torn_store_stays_torn : forall h c,
-  d_file c = true -> ready c = false -> run_all c h = c.
-Proof. exact torn_forever. Qed.
-Print Assumptions c07_torn_store_stays_torn.
-
-Theorem c07_refuted_store_creation_torn_schema :
-  exists h k, classify h k = Some CTornSchema /\
-    (forall h', run_all (crash_at absent h k) h' = crash_at absent h k) /\
-    (forall f t sh t1 t2 t3 t4 t5,
-        snd (big (crash_at absent h k) (CDeliver f t sh t1 t2 t3 t4 t5)) = RNo) /\
-    recovers_b (crash_at absent h k) 200 W_SHAPE = false.
-Proof. exact refuted_torn_schema. Qed.
-Print Assumptions c07_refuted_store_creation_torn_schema.
-
-Theorem c07_refuted_store_creation_no_inbox :
-  exists h k, classify h k = Some CNoInbox /\
-    (forall t1 t2 t3 t4 t5,
-        has_inbox (fst (big (crash_at absent h k) (COpen t1 t2 t3 t4 t5))) = false) /\
-    recovers_b (crash_at absent h k) 200 W_SHAPE = false.
-Proof. exact refuted_no_inbox. Qed.
-Print Assumptions c07_refuted_store_creation_no_inbox.
+(** With the old GetUserDB ([old_open_steps]: nothing when the file exists) a
+    process death after "create file" + 3 CREATE TABLE left a store that the
+    old reopen never touched again (no steps, not ready); the repaired reopen
+    completes it. *)
+Example c07_old_store_creation_was_torn :
+  let c := run_steps absent (firstn 4 (old_open_steps absent 100)) in
+  old_open_steps c 200 = [] /\ ready c = false /\ recovers_b c 200 W_SHAPE = true.
+Proof. vm_compute. repeat split. Qed.
 
 (** ---- non-vacuity ---------------------------------------------------------------------- *)
 
-(** a workload with every kind of operation has 74 crash points; points 1..27
-    (inside store creation, before INSERT INBOX) are classified, all others
-    are usable and recover (login OK, INBOX there, delivery accepted, all
-    listed messages complete) *)
+(** a workload with every kind of operation: at each of its crash points a new
+    login is OK, INBOX is there, a delivery is accepted and all listed messages
+    are complete *)
 Example c07_mixed_workload :
-  length (all_points W_MIXED) = 74%nat /\
-  map (fun k => class_code (classify W_MIXED k)) (firstn 33 (all_points W_MIXED))
-    = [0; 1; 1; 1; 1; 1; 1; 1; 1; 1; 2; 2; 2; 2; 2; 2; 2; 2; 2; 2; 2; 2; 2; 2; 2; 2; 2; 2; 0; 0; 0; 0; 0] /\
-  forallb (fun k => match classify W_MIXED k with
-                    | None => recovers_b (crash_at absent W_MIXED k) 200 W_SHAPE
-                    | Some _ => negb (recovers_b (crash_at absent W_MIXED k) 200 W_SHAPE)
-                    end) (all_points W_MIXED) = true /\
+  length (all_points W_MIXED) = 70%nat /\
+  forallb (fun k => recovers_b (crash_at absent W_MIXED k) 200 W_SHAPE) (all_points W_MIXED) = true /\
   forallb op_plain W_MIXED = true.
 Proof. vm_compute. repeat split. Qed.
